@@ -13,7 +13,7 @@ import (
 func Options(envs []*Node, resolvers [][]KV) ([]ucfg.Option, error) {
 	opts := []ucfg.Option{ucfg.PathSep("."), ucfg.VarExp}
 	for _, e := range envs {
-		ec, err := ucfg.NewFrom(e.Go(), ucfg.PathSep("."))
+		ec, err := ucfg.NewFrom(e.Go(), ucfg.PathSep("."), ucfg.VarExp)
 		if err != nil {
 			return nil, fmt.Errorf("building an Env config failed: %v", err)
 		}
